@@ -260,6 +260,11 @@ def emptyPattern (chn : Int) : Pattern := { rows := 0, index := List.replicate (
 def prepareScan (m : Module) : Except Err Module :=
   if m.xxp.isNone || m.xxt.isNone then .error .load
   else if (firstValidOrder m : Int) ≥ m.len then .ok { m with len := 0 }
+  else if (List.range m.len.toNat).any (fun o => match m.pattern? (m.xxo.getD o 0) with
+      | some p => decide ((m.xxo.getD o 0 : Int) < m.pat) && decide (p.rows < 0)
+      | none => false) then
+    /- `calloc(1, pat->rows)` with a negative row count cannot succeed -/
+    .error .system
   else
     /- every order whose pattern number is `< pat` but whose slot is NULL gets an
        empty pattern (dead code after the gate, kept because the C has it) -/
